@@ -992,7 +992,7 @@ def gen_pairwise_case(rnd):
         pw["only_larger"] = True
     if pw:
         tr["pairwise_indices"] = pw
-    return dict(dims=dims, rs=rs, weighted=weighted, transforms=tr)
+    return dict(dims=dims, rs=rs, weighted=weighted, transforms=tr, sq=weighted and rnd.random() < 0.5)
 
 
 class PairwiseEndToEnd(EnumContract):
@@ -1023,7 +1023,15 @@ class PairwiseEndToEnd(EnumContract):
             return []
         bad = set()
         try:
-            p = Cube(tabulate(dims, rs, weighted), transforms=copy.deepcopy(tr) or None, population=1000).partitions[0]
+            resp = tabulate(dims, rs, weighted)
+            if case.get("sq"):
+                # squared weights supplied: the test uses the effective base (sum w)^2 / sum w^2
+                nr, nc = len(rd["cats"]), len(cd["cats"])
+                sq = [0.0] * (nr * nc)
+                for r in rs:
+                    sq[r["a"][0] * nc + r["a"][1]] += r["w"] * r["w"]
+                resp["result"]["measures"]["weighted_squared_count"] = {"data": sq, "n_missing": 0}
+            p = Cube(resp, transforms=copy.deepcopy(tr) or None, population=1000).partitions[0]
             co = [int(i) for i in p.column_order()]
             ro = [int(i) for i in p.row_order()]
             vids = [cd["cats"][j]["id"] for j in C]
@@ -1038,6 +1046,7 @@ class PairwiseEndToEnd(EnumContract):
 
             W = np.array([[wsum(rs, lambda r, i=i, j=j: r["a"][0] == i and r["a"][1] == j) for j in C] for i in R])
             U = np.array([[wsum(rs, lambda r, i=i, j=j: r["a"][0] == i and r["a"][1] == j, False) for j in C] for i in R])
+            W2 = np.array([[math.fsum(r["w"] * r["w"] for r in rs if r["a"][0] == i and r["a"][1] == j) for j in C] for i in R])
             # per display column: proportion of each base row and unweighted column base
             P, N = [], []
             for o in co:
@@ -1045,7 +1054,11 @@ class PairwiseEndToEnd(EnumContract):
                 w = W[:, m].sum(axis=1)
                 with np.errstate(all="ignore"):
                     P.append(w / w.sum())
-                N.append(U[:, m].sum())
+                if case.get("sq"):
+                    with np.errstate(all="ignore"):
+                        N.append(np.float64(W[:, m].sum()) ** 2 / np.float64(W2[:, m].sum()))
+                else:
+                    N.append(U[:, m].sum())
             P = np.array(P).T if co else np.zeros((len(R), 0))  # rows x display columns
             N = np.array(N, dtype=float)
             rows = [o for o in ro if o >= 0]
